@@ -397,7 +397,8 @@ class C17(core.Check):
                 body = self._randcase(rng, b'DATA') + tail
                 if not open_end and rng.random() < 0.5:
                     body += rng.choice([b':print 1', b': rem x', b":'q", b':DATA "p:q r",s'])
-                text = b'%d ' % nums[0] + body
+                # a line number above 65529 is not a line number: its last digits and the D of DATA read as a number (99999D)
+                text = b'%d ' % (nums[0] if nums[0] <= 65529 else 10) + body
                 hist['text_data'] = hist.get('text_data', 0) + 1
                 hist['text_progen'] += 1
                 return {'k': 'text', 'syn': syn, 'b': list(bytearray(text[:255])), 'ci': True,
